@@ -21,7 +21,8 @@ func init() {
 		Rule: "bounded-exhaustive: elements {a, area, link} x every attribute list of length <=3 (thorough 4) with repetition over 21 attributes (href external / scheme-relative / local / fragment / mailto / javascript / empty; rel values including tokens that merely contain the required words, upper case, tab-separated; target _blank / _BLANK / _self / other; an unrelated attribute) " +
 			"x all 32 combinations of the five link options x {rel admitted without pattern | with SpaceSeparatedTokens | not admitted} x {target admitted | not}. " +
 			"Oracle on the first rel / first target of each output tag that carries an href (as a browser reads duplicates): required tokens present per option and per host-qualification of the first surviving href, target=_blank where required, noopener whenever an a ends up with a target that is _blank in any letter case, " +
-			"every token of each surviving input rel still present, required tokens not more frequent than in the input or once; when the tag has exactly one href and at most one target, no rel token that neither the input carried nor an option in force requires for that link. non-trivial = at least one requirement applied to the output tag.",
+			"every token of each surviving input rel still present, required tokens not more frequent than in the input or once; when the tag has exactly one href and at most one target, no rel token that neither the input carried nor an option in force requires for that link. non-trivial = at least one requirement applied to the output tag." +
+			" Six option masks with RequireParseableURLs(false) set after the link options (hrefs net/url refuses but a browser follows reach the hardening pass); 'has a host' strips leading / trailing C0 and space and tab / newline first.",
 		Assumptions: []string{
 			"'has a host' is judged as a browser does (for http / https the slashes after the scheme are optional)",
 			"requirements are evaluated only for elements that carry an href in the output",
